@@ -380,6 +380,13 @@ def run(ctx, rep):
             rep.viol(crid, 'control-false-alarm:' + name, 'the rule fires on the compliant fixture %s' % name)
     except KeyError:
         rep.anchor('M-C16a', 'fixture crate facts', False)
+    def probe_c16(probe, crate):
+        prid = probe.rule('M-C16a', 'probe')
+        for fn in sorted(crate.fns.values(), key=lambda f: f.name):
+            if not re.search(r'^graph::export::|::tests::', fn.name):
+                analyse_fn(crate, fn, probe, prid)
+    from props import cg
+    cg.cg_controls(rep, ctx, [('M-C16a', probe_c16)])
     rep.trusted += ['rustc nightly MIR construction and callee resolution', 'engines/mirfacts']
     rep.assumptions += ['sort keys are unique where sorts are unstable (keys are map keys or state/leaf ids; argued per site in DESIGN.md)',
                         'closures passed to iterator adaptors have no order-dependent side effects (for_each/fold/find/position/take are not adaptors and are reported)',
